@@ -115,4 +115,62 @@ mutual
       certTypeProps env defs f fs rest
 end
 
+/-! ### C17: a decidable sufficient condition for wire-compatibility (`Props.C17.WC`) -/
+
+def noAnyOfB (vs : List Validator) : Bool := vs.all (fun v => match v with | .anyOf _ => false | _ => true)
+
+def primCarrier : GoTy → Bool
+  | .string | .float64 | .bool | .int _ => true
+  | _ => false
+
+/-- the key binds to the same field under both binding rules: every field has the same json and yaml key, and the
+    document key matches a field exactly or matches none case-insensitively -/
+def bindsAlike (fs : List Field) (k : String) : Bool :=
+  fs.all (fun fl => fl.jsonKey == fl.yamlKey) &&
+  ((fs.find? (fun fl => fl.jsonKey = k)).isSome || fs.all (fun fl => foldKey fl.jsonKey != foldKey k))
+
+mutual
+  /-- `wcB env fuel ty j = true` implies `WC env ty j` (theorem `Props.C17.wcB_sound`); evaluated by the driver for
+      every document it decodes through both wires -/
+  def wcB (env : Env) : Nat → GoTy → Json → Bool
+    | 0, _, _ => false
+    | f + 1, ty, j =>
+      match ty, j with
+      | .string, .str _ => true
+      | .bool, .bool _ => true
+      | .float64, .num _ => true
+      | .int _, .num q => q.den = 1
+      | .iface, j => !j.isNull
+      | .ptr t, j => wcB env f t j
+      | .slice (.int _), _ => false
+      | .slice t, .arr xs => wcBAll env f t xs
+      | .map t, .obj kvs => wcBVals env f t kvs
+      | .strct fs, .obj kvs => wcBFields env f fs kvs
+      | .named n, j =>
+          (match env.resolve 8 n with
+           | none => false
+           | some d =>
+             if !d.hasMethod then !d.ty.isFmt && wcB env f d.ty j
+             else match d.body with
+               | .plain vs true => noAnyOfB vs && wcB env f d.ty j
+               | .enum _ _ _ _ _ => primCarrier (enumCarrierOf d.ty) && wcB env f (enumCarrierOf d.ty) j
+               | _ => false)
+      | _, _ => false
+  def wcBAll (env : Env) : Nat → GoTy → List Json → Bool
+    | 0, _, _ => false
+    | _ + 1, _, [] => true
+    | f + 1, t, x :: xs => wcB env f t x && wcBAll env f t xs
+  def wcBVals (env : Env) : Nat → GoTy → List (String × Json) → Bool
+    | 0, _, _ => false
+    | _ + 1, _, [] => true
+    | f + 1, t, (_, x) :: rest => wcB env f t x && wcBVals env f t rest
+  def wcBFields (env : Env) : Nat → List Field → List (String × Json) → Bool
+    | 0, _, _ => false
+    | _ + 1, _, [] => true
+    | f + 1, fs, (k, x) :: rest =>
+        bindsAlike fs k &&
+        (match bindKey fs k with | some fld => wcB env f fld.ty x | none => true) &&
+        wcBFields env f fs rest
+end
+
 end GJS
